@@ -5,4 +5,4 @@ NOT_YET = "check not built yet in this round (see DESIGN.md section 10 for the b
 NOT_APPLICABLE = {}
 
 # checks that are finished and reviewed; only these are rendered into MANIFEST.json
-ENABLED = ["C01", "C02", "C03", "C04", "C05", "C06", "C08", "C09", "C10", "C11", "C12", "C13", "C14", "C15", "C16", "C17", "C18", "C19", "C20"]
+ENABLED = ["C01", "C02", "C03", "C04", "C05", "C06", "C07", "C08", "C09", "C10", "C11", "C12", "C13", "C14", "C15", "C16", "C17", "C18", "C19", "C20"]
